@@ -2,6 +2,7 @@ package broker
 
 import (
 	"fmt"
+	"runtime"
 	"sort"
 	"strings"
 	"time"
@@ -178,6 +179,15 @@ func (h *Harness) Step(a Action) []Mismatch {
 			return mm
 		}
 		return h.Step(Action{Kind: "pubrel", Client: a.Client, ID: a.ID})
+	}
+	// raw bytes from a peer nobody has authenticated: what the broker allocates on their
+	// behalf is bounded by the largest packet MQTT 3.1.1 knows (256 MiB)
+	var allocBefore uint64
+	rawBytes := a.Kind == "connectraw" || a.Kind == "hostile-dial" || a.Kind == "hostile" || a.Kind == "send" || a.Kind == "raw"
+	if rawBytes {
+		var ms runtime.MemStats
+		runtime.ReadMemStats(&ms)
+		allocBefore = ms.TotalAlloc
 	}
 	exps := map[string]*Exp{}
 	var altClose []string // clients for which "closed instead of answered" is acceptable
@@ -541,6 +551,13 @@ func (h *Harness) Step(a Action) []Mismatch {
 		return []Mismatch{{"harness", "unknown action " + a.Kind}}
 	}
 	h.W.Settle()
+	if rawBytes {
+		var ms runtime.MemStats
+		runtime.ReadMemStats(&ms)
+		if d := ms.TotalAlloc - allocBefore; d > 320<<20 {
+			return []Mismatch{{"alloc", fmt.Sprintf("%d bytes from %s made the broker allocate %d MiB (the largest MQTT 3.1.1 packet has 256 MiB; a process with less memory to spare dies with an unrecoverable out-of-memory error)", len(a.Raw), a.Client, d>>20)}}
+		}
+	}
 	// a request may be answered by closing the connection instead (C07)
 	for _, name := range altClose {
 		c := h.byName[name]
